@@ -337,8 +337,8 @@ def rule_subset(ck):
 
 
 def run(ck):
-    rule_comutation(ck)
-    rule_add(ck)
-    rule_register(ck)
-    rule_algebra(ck)
-    rule_subset(ck)
+    ck.attempt(rule_comutation)
+    ck.attempt(rule_add)
+    ck.attempt(rule_register)
+    ck.attempt(rule_algebra)
+    ck.attempt(rule_subset)
